@@ -597,7 +597,23 @@ def replay_scenario(doc):
     old = Old()
     for k, v in old_copy.items():
         setattr(old, k, v)
-XX, side_effect=seq(mono, U.clock)), patch('time.time', side_effect=seq(walls, 0.0)):
+    # the rebuilt pre-state must satisfy the contract's preconditions natively, else the replay proves nothing
+    pre_failed = None
+    if ns is not None and doc.get('contract_class') and ns.get(doc['contract_class']) is not None:
+        import inspect
+        con_cls = ns.get(doc['contract_class'])
+        for cname_ in [n for n in vars(con_cls) if n.startswith('pre')]:
+            cfn = getattr(con_cls, cname_)
+            try:
+                args = {p_: params[p_] for p_ in inspect.signature(cfn).parameters}
+                if not cfn(**args):
+                    pre_failed = cname_
+                    break
+            except Exception as e:
+                pre_failed = f'{cname_} ({type(e).__name__}: {e})'
+                break
+    outcome, result, exc = 'normal', None, None
+    with patch('time.monotonic', side_effect=seq(mono, U.clock)), patch('time.time', side_effect=seq(walls, 0.0)):
         try:
             result = fn(**params)
         except Exception as e:   # the real code raised
